@@ -25,6 +25,24 @@ def run_rules(ctx, rule_names):
     return out
 
 
+def verdicts(pid: str, repo: str):
+    """(violating instance keys not in known findings, all instances) for `pid` on the tree at `repo`;
+    raises AnalysisError when the analysis is incomplete.  Used by the self-test (no output)."""
+    from . import registry
+    from .ctx import Ctx
+    info = registry.PROPS[pid]
+    ctx = Ctx(repo)
+    registry.check_slot_tables(ctx)
+    results = run_rules(ctx, info['rules'])
+    mine = []
+    for rn, insts in results.items():
+        for i in insts:
+            if pid in i.props or any(i.rule == ar and i.func == af for ar, af in info.get('also', [])):
+                mine.append(i)
+    known = known_keys_for(pid)
+    return [i for i in mine if i.verdict == 'violation' and i.key not in known], mine
+
+
 def check(pid: str, tier: str, replay: str = None, repo: str = None, quiet=False) -> int:
     from . import registry
     from .ctx import Ctx
